@@ -3,6 +3,10 @@ pub fn randombytes_buf(len: usize) -> Vec<u8> {
     use rand_core::{OsRng, TryRngCore};
 
     let mut r: Vec<u8> = vec![0; len];
+    #[cfg(feature = "verif_hooks")]
+    if verif::fill(r.as_mut_slice()) {
+        return r;
+    }
     OsRng
         .try_fill_bytes(r.as_mut_slice())
         .expect("failed to fill random bytes");
@@ -15,7 +19,41 @@ pub fn randombytes_buf(len: usize) -> Vec<u8> {
 pub fn copy_randombytes(dest: &mut [u8]) {
     use rand_core::{OsRng, TryRngCore};
 
+    #[cfg(feature = "verif_hooks")]
+    if verif::fill(dest) {
+        return;
+    }
     OsRng
         .try_fill_bytes(dest)
         .expect("failed to fill random bytes");
+}
+
+/// Verification seam: lets a harness own the randomness source of the current
+/// thread. With no source installed the production path runs unchanged.
+#[cfg(feature = "verif_hooks")]
+#[doc(hidden)]
+pub mod verif {
+    use std::cell::RefCell;
+
+    type Source = Box<dyn FnMut(&mut [u8])>;
+
+    thread_local! {
+        static SOURCE: RefCell<Option<Source>> = RefCell::new(None);
+    }
+
+    /// Installs (or, with `None`, removes) the randomness source used by
+    /// `copy_randombytes` and `randombytes_buf` on the calling thread.
+    pub fn set_source(source: Option<Source>) {
+        SOURCE.with(|s| *s.borrow_mut() = source);
+    }
+
+    pub(super) fn fill(dest: &mut [u8]) -> bool {
+        SOURCE.with(|s| match s.borrow_mut().as_mut() {
+            Some(f) => {
+                f(dest);
+                true
+            }
+            None => false,
+        })
+    }
 }
